@@ -678,15 +678,29 @@ MayAccept(b, v) == \E o \in Val(b, v, None, "write") : o.ok
 Undecided(b, v) == MayAccept(b, v) /\ RE \in Val(b, v, None, "write")
 Subset(a, b) == \A v \in CU(a) : MayAccept(b, v)
 SubsetSure(a, b) == \A v \in CU(a) : MayAccept(b, v) /\ ~Undecided(b, v)
-(* the pairings compatible() is written to support *)
+(* the pairings compatible() is written to support: same kind with equal or wider limits, numbers into *)
+(* wider number kinds, integer ranges into enums / booleans that contain them, element-wise in containers *)
+Lo(d) == IF d.k = "int" THEN d.min * U ELSE d.min
+Hi(d) == IF d.k = "int" THEN d.max * U ELSE d.max
+WiderNum(a, b) == /\ (Lo(b) = -NoLim \/ (Lo(a) # -NoLim /\ Lo(b) <= Lo(a)))
+                  /\ (Hi(b) = NoLim \/ (Hi(a) # NoLim /\ Hi(a) <= Hi(b)))
 Supported(a, b) ==
-    CASE a.k = "double" -> b.k \in {"double", "scaled"}
-      [] a.k = "scaled" -> b.k \in {"double", "scaled"}
-      [] a.k = "int" -> b.k \in {"int", "double", "scaled", "enum", "bool"}
-      [] a.k \in {"bool", "enum", "string", "blob"} -> b.k = a.k
-      [] a.k = "array" -> b.k = "array" /\ Supported(a.el, b.el)
+    CASE a.k \in {"double", "scaled"} -> b.k \in {"double", "scaled"} /\ WiderNum(a, b)
+      [] a.k = "int" ->
+           CASE b.k \in {"int", "double", "scaled"} -> WiderNum(a, b)
+             [] b.k = "enum" -> a.max - a.min <= 24 /\ \A n \in a.min .. a.max : ByVal(b, n) # {}
+             [] b.k = "bool" -> 0 <= a.min /\ a.max <= 1
+             [] OTHER -> FALSE
+      [] a.k = "bool" -> b.k = "bool"
+      [] a.k = "enum" -> b.k = "enum" /\ \A m \in Rng(a.mem) : ByVal(b, m.v) # {}
+      [] a.k = "string" -> /\ b.k = "string" /\ b.minc <= a.minc /\ (a.utf8 => b.utf8)
+                           /\ (b.maxc = NoLim \/ (a.maxc # NoLim /\ a.maxc <= b.maxc))
+      [] a.k = "blob" -> b.k = "blob" /\ b.minb <= a.minb /\ a.maxb <= b.maxb
+      [] a.k = "array" -> b.k = "array" /\ b.minlen <= a.minlen /\ a.maxlen <= b.maxlen /\ Supported(a.el, b.el)
       [] a.k = "tuple" -> b.k = "tuple" /\ Len(a.els) = Len(b.els) /\ \A x \in 1 .. Len(a.els) : Supported(a.els[x], b.els[x])
-      [] a.k = "struct" -> b.k = "struct" /\ Names(a) \subseteq Names(b)
+      [] a.k = "struct" -> /\ b.k = "struct" /\ Names(a) \subseteq Names(b)
+                           /\ (Names(b) \ Names(a)) \subseteq Rng(b.opt)
+                           /\ (Rng(a.opt) \cap Names(b)) \subseteq Rng(b.opt)
                            /\ \A x \in 1 .. Len(a.mem) : Supported(a.mem[x].t, TypeOf(b, a.mem[x].n))
 (* allowed verdicts of a.compatible(b): TRUE = passes *)
 AllowedPass(a, b) == IF ~Subset(a, b) THEN {FALSE} ELSE IF Supported(a, b) /\ SubsetSure(a, b) THEN {TRUE} ELSE {TRUE, FALSE}
@@ -823,6 +837,7 @@ NonVacuous == NonVacuousR(dt, CaseRecs(dt))
 RoundTrip == RoundTripLaw(dt) /\ VS(dt) # {}
 (* every type is compatible with itself, and compatibility by meaning is transitive on the catalogue *)
 CompatSane == /\ Subset(dt, dt) /\ Supported(dt, dt) /\ AllowedPass(dt, dt) = {TRUE}
+              /\ \A i \in 1 .. Len(TypeSeq(Tier)) : Supported(dt, TypeSeq(Tier)[i]) => Subset(dt, TypeSeq(Tier)[i])
               /\ \A i, j \in 1 .. Len(TypeSeq(Tier)) :
                     (Subset(dt, TypeSeq(Tier)[i]) /\ Subset(TypeSeq(Tier)[i], TypeSeq(Tier)[j])) => Subset(dt, TypeSeq(Tier)[j])
 DescribeRebuild == DescribeLaw(Deco(dt, "K", "%.3f", TRUE)) /\ DescribeLaw(Deco(dt, "$", "%g", FALSE))
